@@ -3,6 +3,7 @@
 import faulthandler
 import importlib
 import json
+import os
 import sys
 import traceback
 
@@ -37,6 +38,11 @@ def main():
     cfg = core.Cfg(prop, tier, seed, shard, nshards, deadline)
     try:
         mod.run(rec, cfg)
+        if shard == 0 and not os.environ.get("VERIF_NO_W0"):
+            from . import attach, w0
+
+            if prop in attach.W0_PROPS:
+                w0.run_repo_tests(rec, prop)
     except BaseException:
         traceback.print_exc()
         rec.notes["crash"] = traceback.format_exc()[-2000:]
